@@ -115,7 +115,151 @@ class VerifyOpaque(Contract):
                 ("if digest != opaqueParts[0]:", "if False:", "LoginFailed-exactly-when")]
 
 
-CONTRACTS = [VerifyOpaque]
+
+# -- the digest arithmetic of RFC 2617 3.2.2: what is hashed -----------------------------------------------------------
+
+
+class _Hash:
+    """a hashlib object as the code uses it: update() appends, digest() is an uninterpreted function of all that was fed"""
+
+    def __init__(self, data=b""):
+        self.fed = data
+
+    def update(self, data):
+        if data is None or isinstance(data, str):
+            raise TypeError("object supporting the buffer API required")
+        self.fed = self.fed + data
+
+    def digest(self):
+        ctx().emit("digest", None, (self.fed,))
+        return core.SSeq(MD5(core.seq_term(self.fed, "bytes")), "bytes")
+
+
+HASH_CALLS = {"_hashlib.openssl_md5": lambda I, data=b"": _Hash(data), "openssl_md5": lambda I, data=b"": _Hash(data),
+              "binascii.hexlify": CALLS["binascii.hexlify"], "hexlify": CALLS["hexlify"]}
+
+
+def hashed(S):
+    return [e.args[0] for e in S.trace if e.name == "digest"]
+
+
+class CalcResponse(Contract):
+    """calcResponse hashes  HA1:nonce:nc:cnonce:qop:HA2  when the client sent nc and cnonce, and the RFC 2069 form
+    HA1:nonce:HA2  when it sent neither -- and raises nothing in either case (seeded change C48-3: a legacy response
+    made checkPassword raise TypeError)"""
+    prop = "C48"
+    module = "twisted.cred._digest"
+    function = "calcResponse"
+    differential = False
+    calls = HASH_CALLS
+    inputs = dict(ha1=Bytes(alphabet=b"1", small_len=1), ha2=Bytes(alphabet=b"2", small_len=1), nonce=Bytes(alphabet=b"n", small_len=1),
+                  nc=Opt(Bytes(alphabet=b"0", small_len=1)), cnonce=Opt(Bytes(alphabet=b"c", small_len=1)), qop=Bytes(alphabet=b"q", small_len=1))
+    trusted = ["the hash object through its contract: update appends, digest is a function of everything fed (md5 uninterpreted)"]
+
+    def setup(self, i):
+        from twisted.cred import _digest
+        return dict(fn=_digest.calcResponse, args=[i.ha1, i.ha2, b"md5", i.nonce, i.nc, i.cnonce, i.qop])
+
+    def bounded_inputs(self, tier):
+        return iter(())
+
+    raises = ()
+
+    def _form(S):
+        i = S.i
+        fed = hashed(S)
+        if len(fed) != 1:
+            return False
+        truth = S.ghost["$interp"].truth
+        long_form = i.nc is not None and i.cnonce is not None and truth(L(i.nc) > 0) and truth(L(i.cnonce) > 0)
+        if long_form:
+            want = i.ha1 + b":" + i.nonce + b":" + i.nc + b":" + i.cnonce + b":" + i.qop + b":" + i.ha2
+        else:
+            want = i.ha1 + b":" + i.nonce + b":" + i.ha2
+        return band(veq(fed[0], want), veq(S.result, core.SSeq(HEX(MD5(core.seq_term(want, "bytes"))), "bytes")))
+
+    ensures = dict(rfc2617_request_digest_long_form_exactly_with_nc_and_cnonce=_form)
+    canaries = [("if pszNonceCount and pszCNonce:", "if pszQop:", "raises/unexpected"),
+                ("        m.update(pszCNonce)\n        m.update(b\":\")\n        m.update(pszQop)", "        m.update(pszQop)\n        m.update(b\":\")\n        m.update(pszCNonce)",
+                 "rfc2617_request_digest_long_form_exactly_with_nc_and_cnonce")]
+
+
+class CalcHA2(Contract):
+    """calcHA2 hashes method:uri, and method:uri:H(entity) exactly for qop=auth-int"""
+    prop = "C48"
+    module = "twisted.cred._digest"
+    function = "calcHA2"
+    differential = False
+    calls = HASH_CALLS
+    inputs = dict(method=Bytes(alphabet=b"G", small_len=1), uri=Bytes(alphabet=b"/", small_len=1), qop=OneOf(None, b"auth", b"auth-int"),
+                  hentity=Bytes(alphabet=b"e", small_len=1))
+
+    def setup(self, i):
+        from twisted.cred import _digest
+        return dict(fn=_digest.calcHA2, args=[b"md5", i.method, i.uri, i.qop, i.hentity])
+
+    def bounded_inputs(self, tier):
+        return iter(())
+
+    raises = ()
+
+    def _form(S):
+        i = S.i
+        fed = hashed(S)
+        want = i.method + b":" + i.uri + ((b":" + i.hentity) if i.qop == b"auth-int" else b"")
+        return band(len(fed) == 1, veq(fed[0], want), veq(S.result, core.SSeq(HEX(MD5(core.seq_term(want, "bytes"))), "bytes")))
+
+    ensures = dict(rfc2617_a2=_form)
+    canaries = [("if pszQop == b\"auth-int\":", "if pszQop:", "rfc2617_a2")]
+
+
+class CalcHA1(Contract):
+    """calcHA1: H(user:realm:password) -- or the stored hash when one is given -- and, for md5-sess, H(that:nonce:cnonce)"""
+    prop = "C48"
+    module = "twisted.cred._digest"
+    function = "calcHA1"
+    differential = False
+    calls = HASH_CALLS
+    inputs = dict(alg=OneOf(b"md5", b"md5-sess"), user=Bytes(alphabet=b"u", small_len=1), realm=Bytes(alphabet=b"r", small_len=1),
+                  password=Bytes(alphabet=b"p", small_len=1), nonce=Bytes(alphabet=b"n", small_len=1), cnonce=Bytes(alphabet=b"c", small_len=1),
+                  stored=Opt(Bytes(alphabet=b"h", minlen=1, small_len=1)))
+
+    def setup(self, i):
+        from twisted.cred import _digest
+        if i.stored is None:
+            args = [i.alg, i.user, i.realm, i.password, i.nonce, i.cnonce]
+        else:
+            args = [i.alg, None, None, None, i.nonce, i.cnonce, i.stored]
+        return dict(fn=_digest.calcHA1, args=args)
+
+    def bounded_inputs(self, tier):
+        return iter(())
+
+    raises = ()
+
+    def _form(S):
+        i = S.i
+        fed = hashed(S)
+        H = lambda x: core.SSeq(HEX(MD5(core.seq_term(x, "bytes"))), "bytes")
+        want_fed = []
+        if i.stored is None:
+            a1 = i.user + b":" + i.realm + b":" + i.password
+            want_fed.append(a1)
+            ha1 = H(a1)
+        else:
+            ha1 = i.stored
+        if i.alg == b"md5-sess":
+            sess = ha1 + b":" + i.nonce + b":" + i.cnonce
+            want_fed.append(sess)
+            ha1 = H(sess)
+        return band(len(fed) == len(want_fed), *([veq(a, b) for a, b in zip(fed, want_fed)] + [veq(S.result, ha1)]))
+
+    ensures = dict(rfc2617_a1=_form)
+    canaries = [("        m.update(pszRealm)\n        m.update(b\":\")\n        m.update(pszPassword)", "        m.update(pszPassword)\n        m.update(b\":\")\n        m.update(pszRealm)", "rfc2617_a1"),
+                ("if pszAlg == b\"md5-sess\":", "if False:", "rfc2617_a1")]
+
+
+CONTRACTS = [VerifyOpaque, CalcResponse, CalcHA2, CalcHA1]
 for _k in CONTRACTS:
     _k.replay_decides = False  # MD5 / hexlify are uninterpreted functions
 BOUNDED = bounded("C48")
@@ -135,7 +279,12 @@ MANIFEST = dict(
          "clock reading, to return True exactly when the opaque has two parts, the second decodes, the key has three fields, "
          "field 1 equals the nonce, field 2 equals the client address (absent = empty, not a wildcard), field 3 parses to a "
          "time at most CHALLENGE_LIFETIME_SECS before now and part 1 equals hexlify(md5(key + privateKey)); otherwise it raises "
-         "LoginFailed and no other exception.  Header parsing, the response digest and whole histories are exercised in the "
+         "LoginFailed and no other exception.  The digest arithmetic is proved against RFC 2617 3.2.2 with the hash object "
+         "replaced by its contract (update appends, digest is a function of everything fed): calcHA1 hashes "
+         "user:realm:password (or takes the stored hash) and, for md5-sess, H(that:nonce:cnonce); calcHA2 hashes method:uri, "
+         "with :H(entity) exactly for auth-int; calcResponse hashes HA1:nonce:nc:cnonce:qop:HA2 exactly when nc and cnonce "
+         "are present and HA1:nonce:HA2 otherwise, and raises in neither case.  Header parsing, the comparison in "
+         "checkPassword / checkHash and whole histories are exercised in the "
          "bounded tier only: " + _SCOPE + ".",
     note="Trusted: pyvc, SMT solvers, contracts of bytes.split / b64decode / int, md5 and hexlify uninterpreted, integer clock. "
          "Everything else: bounded, never counted as proved.",
